@@ -26,7 +26,7 @@ def _do_download(rig, srv, idx, sub, payload, mode, chunking, tag):
     elif mode.startswith("text"):
         # text mode: "text<buffering>_<size|nosize>"; the caller's text is ASCII, the payload its encoding
         kind, sized = mode.split("_")
-        buffering = int(kind[4:])
+        buffering = 1 if kind == "textnl" else int(kind[4:])
         size = n if sized == "size" else None
         fp = client.open(idx, sub, "w", encoding="ascii", buffering=buffering, size=size)
         text = sx.mkstr(sx.items(payload))      # ASCII: code point i is byte i
@@ -104,8 +104,11 @@ def download(n, mode, chunking="all", n2=None, mode2="api"):
     sub = sx.fresh_int("sub", 0, 0xFF)
     payload = sx.fresh_bytes("p", n)
     if mode.startswith("text"):
-        for b in sx.items(payload):
+        for i, b in enumerate(sx.items(payload)):
             sx.assume(b < 128)
+            if mode.startswith("textnl"):
+                # line-buffered text with newlines at fixed places (every 5th character) and nowhere else
+                sx.assume((b == 10) if i % 5 == 4 else ((b != 10) & (b != 13)))
     tag = "C01/download/%s" % mode
     _do_download(rig, srv, idx, sub, payload, mode, chunking, tag)
     sx.reach("download-" + mode.split("_")[0])
@@ -517,9 +520,14 @@ def jobs(tier):
                 for sized in ("size", "nosize"):
                     if tb == "1" and sized == "size" and 1 <= n <= 4:
                         continue    # a line flush would feed an expedited stream less than `size` bytes (outside)
+                    if tb == "1" and n > 12:
+                        continue    # line buffering forks on every character: longer texts use fixed newline places
                     for ch in (("all",) if n <= (5 if q else 7) else ("4", "9")):
                         out.append(dict(func="download", params=dict(n=n, mode="text%s_%s" % (tb, sized), chunking=ch),
                                         weight=n + 2 ** min(n, 7)))
+        if n in (13, 16, 29, 35, 64, 100) or (not q and 12 < n <= 100 and n % 5 == 0):
+            for sized in ("size", "nosize"):
+                out.append(dict(func="download", params=dict(n=n, mode="textnl_%s" % sized, chunking="9"), weight=n))
         if n <= (5 if q else 8):
             for sized in (("nosize",) if 1 <= n <= 4 else ("size", "nosize")):
                 out.append(dict(func="download", params=dict(n=n, mode="bufn_%s" % sized, chunking="all"),
